@@ -1468,8 +1468,113 @@ func c09R14(p *core.Prog, r *core.Report) {
 			}
 			return false
 		}
+		// the "found" state may be carried in an integer (`index := -1 … if index < 0`): with the matched
+		// edges removed, a test of a phi whose values on the blocks still reachable are all constants has
+		// one outcome only
+		reach0 := map[*ssa.BasicBlock]bool{}
+		var bfs func(b *ssa.BasicBlock)
+		bfs = func(b *ssa.BasicBlock) {
+			if reach0[b] {
+				return
+			}
+			reach0[b] = true
+			for _, sc := range b.Succs {
+				if !stopEdge(b, sc) {
+					bfs(sc)
+				}
+			}
+		}
+		if len(fn.Blocks) > 0 {
+			bfs(fn.Blocks[0])
+		}
+		phiCut := func(from, to *ssa.BasicBlock) bool {
+			ifi, ok := core.LastInstr(from).(*ssa.If)
+			if !ok || len(from.Succs) != 2 {
+				return false
+			}
+			bo, ok := ifi.Cond.(*ssa.BinOp)
+			if !ok {
+				return false
+			}
+			k, isK := core.ConstInt(bo.Y)
+			if !isK {
+				return false
+			}
+			// the values the tested variable can have here: the incoming values of a phi on the edges
+			// still reachable, or — for a variable that lives in a cell because a literal captures it —
+			// the nearest stores on the paths still reachable
+			var vals []ssa.Value
+			switch x := bo.X.(type) {
+			case *ssa.Phi:
+				for i, pr := range x.Block().Preds {
+					if reach0[pr] && !stopEdge(pr, x.Block()) {
+						vals = append(vals, x.Edges[i])
+					}
+				}
+			case *ssa.UnOp:
+				cell, isCell := x.X.(*ssa.Alloc)
+				if x.Op != token.MUL || !isCell {
+					return false
+				}
+				seenB := map[*ssa.BasicBlock]bool{}
+				var back func(b *ssa.BasicBlock, from int)
+				back = func(b *ssa.BasicBlock, from int) {
+					for i := from; i >= 0; i-- {
+						if st, isSt := b.Instrs[i].(*ssa.Store); isSt && st.Addr == ssa.Value(cell) {
+							vals = append(vals, st.Val)
+							return
+						}
+					}
+					for _, pr := range b.Preds {
+						if reach0[pr] && !stopEdge(pr, b) && !seenB[pr] {
+							seenB[pr] = true
+							back(pr, len(pr.Instrs)-1)
+						}
+					}
+				}
+				back(x.Block(), core.InstrIndex(x)-1)
+			default:
+				return false
+			}
+			var outcome *bool
+			for _, val := range vals {
+				v, isC := core.ConstInt(val)
+				if !isC {
+					return false
+				}
+				var res bool
+				switch bo.Op {
+				case token.LSS:
+					res = v < k
+				case token.LEQ:
+					res = v <= k
+				case token.GTR:
+					res = v > k
+				case token.GEQ:
+					res = v >= k
+				case token.EQL:
+					res = v == k
+				case token.NEQ:
+					res = v != k
+				default:
+					return false
+				}
+				if outcome != nil && *outcome != res {
+					return false
+				}
+				outcome = &res
+			}
+			if outcome == nil {
+				return false
+			}
+			dead := from.Succs[1]
+			if !*outcome {
+				dead = from.Succs[0]
+			}
+			return to == dead
+		}
 		bad := ""
-		seen := core.Reach{StopEdge: stopEdge}.FromEntry(fn)
+		seen := core.Reach{StopEdge: func(f, t *ssa.BasicBlock) bool { return stopEdge(f, t) || phiCut(f, t) }}.FromEntry(fn)
 		for _, ret := range core.Returns(fn) {
 			if seen[ret] && !failureReturn(fn, ret) {
 				if pos := p.Pos(ret.Pos()); bad == "" || pos < bad {
